@@ -105,6 +105,11 @@ def check_for_duplicates(arg, values):
 '''
 
 
+def ptree_aliases(repo):
+    t = ast.parse(open(f"{repo}/xyzpy/gen/prepare.py").read())
+    return [x for x in t.body if isinstance(x, ast.Assign)]
+
+
 def norm(node):
     """unparse with comments/docstrings gone"""
     return ast.unparse(node)
@@ -268,6 +273,15 @@ def generate(repo):
         if strip_doc(got) != strip_doc(wf):
             raise Refused(got, f"{wf.name} differs from the transcription")
     out += ["Definition gen_linear_runners_are_transcribed : bool := true.", ""]
+    # prepare.py: how spellings of fn_args / combos / cases / var_names / var_dims are normalised
+    from . import pins
+    n_pinned = pins.check(repo, "xyzpy/gen/prepare.py")
+    aliases = {ast.unparse(x) for x in ptree_aliases(repo)}
+    for al in ("parse_var_coords = dictify", "parse_constants = dictify", "parse_resources = dictify",
+               "parse_attrs = dictify"):
+        if al not in aliases:
+            raise Refused(tree, f"prepare.py: {al} missing")
+    out += [f"Definition gen_prepare_is_pinned : bool := true.   (* {n_pinned} functions *)", ""]
 
     # ---- prepare.py: a value that EQUALS an earlier value of the same argument is refused (the results are
     #      keyed by value, so equal values would share one slot), for every argument of the grid
